@@ -333,3 +333,149 @@ func logFileLeg(r *ev.Run) {
 	}
 	r.Add("logfile_lines_checked", len(strings.Split(string(b), "\n")))
 }
+
+// httpIDLeg: over real HTTPS, a second stream is only paired with the first when its path ID is
+// exactly the same; related IDs (case, prefix, extension, escaped variants) are refused.
+func httpIDLeg(r *ev.Run) {
+	s, err := srv.Start(srv.Opts{})
+	if err != nil {
+		r.Inconclusive("http id leg: %v", err)
+		return
+	}
+	defer s.Stop()
+	base := "AbC123xyz"
+	variants := []string{"abc123xyz", "ABC123XYZ", "AbC123xy", "AbC123xyzz", "AbC123xyz%20", "AbC123xyZ", "%41bC123xyz%00", "AbC123xyz.", "AbC123xyz;x"}
+	ci, err := hold(s.Addr, "/i/"+base)
+	if err != nil {
+		r.Inconclusive("http id leg: %v", err)
+		return
+	}
+	defer ci.Close()
+	if _, ok := s.WaitLine(0, 5*time.Second, func(cl opshell.CLine) bool { return strings.Contains(cl.Line, "Input connected") }); !ok {
+		r.Inconclusive("http id leg: input stream not attached")
+		return
+	}
+	for _, v := range variants {
+		n0 := s.NLines()
+		c, err := dialTLS(s.Addr)
+		if err != nil {
+			continue
+		}
+		fmt.Fprintf(c, "POST /o/%s HTTP/1.1\r\nHost: x\r\nTransfer-Encoding: chunked\r\n\r\n5\r\nLEAK\n\r\n", v)
+		_, ready := s.WaitLine(n0, 300*time.Millisecond, func(cl opshell.CLine) bool {
+			return strings.Contains(cl.Line, iobroker.ShellReadyMessage) || (cl.Plain && strings.Contains(cl.Line, "LEAK"))
+		})
+		c.Close()
+		if ready {
+			r.Violation("http:related-id-paired", map[string]any{"input_id": base, "output_id_on_the_wire": v, "what": "an output stream with a different callback ID was attached to the input stream (or its output displayed)"})
+			return
+		}
+		r.Add("http_related_ids_refused", 1)
+	}
+	// the exact ID (also when percent-encoded on the wire) is accepted
+	n0 := s.NLines()
+	c, err := dialTLS(s.Addr)
+	if err == nil {
+		fmt.Fprintf(c, "POST /o/%s HTTP/1.1\r\nHost: x\r\nTransfer-Encoding: chunked\r\n\r\n", "%41bC123xyz")
+		if _, ok := s.WaitLine(n0, 5*time.Second, func(cl opshell.CLine) bool { return strings.Contains(cl.Line, iobroker.ShellReadyMessage) }); !ok {
+			r.Violation("http:same-id-refused", map[string]any{"input_id": base, "output_id_on_the_wire": "%41bC123xyz"})
+		}
+		c.Close()
+	}
+}
+
+// httpGenerationsLeg: many shells in series over real HTTPS, each with a new ID, ended in
+// different ways: every one is accepted, announced ready once, gone once, and the callback
+// help is printed again once.
+func httpGenerationsLeg(r *ev.Run) {
+	s, err := srv.Start(srv.Opts{})
+	if err != nil {
+		r.Inconclusive("generations leg: %v", err)
+		return
+	}
+	defer s.Stop()
+	n := 40
+	if r.Tier == "thorough" {
+		n = 400
+	}
+	rng := rand.New(rand.NewSource(r.Seed + 5))
+	for g := 0; g < n; g++ {
+		n0 := s.NLines()
+		id := fmt.Sprintf("gen%d-%d", g, rng.Intn(1e6))
+		var ci, co net.Conn
+		var err1, err2 error
+		io := g%4 == 3
+		if io {
+			ci, err1 = dialTLS(s.Addr)
+			if err1 == nil {
+				fmt.Fprintf(ci, "POST /io HTTP/1.1\r\nHost: x\r\nTransfer-Encoding: chunked\r\n\r\n")
+			}
+		} else {
+			ci, err1 = hold(s.Addr, "/i/"+id)
+			co, err2 = dialTLS(s.Addr)
+			if err2 == nil {
+				fmt.Fprintf(co, "POST /o/%s HTTP/1.1\r\nHost: x\r\nTransfer-Encoding: chunked\r\n\r\n", id)
+			}
+		}
+		if err1 != nil || err2 != nil {
+			r.Inconclusive("generations leg: %v %v", err1, err2)
+			return
+		}
+		what := map[string]any{"generation": g + 1, "id": id, "via_io": io}
+		if _, ok := s.WaitLine(n0, 5*time.Second, func(cl opshell.CLine) bool { return strings.Contains(cl.Line, iobroker.ShellReadyMessage) }); !ok {
+			r.Violation("http:next-shell-not-accepted", what)
+			return
+		}
+		// end it: input side first, output side first, or a clean end of the upload
+		switch {
+		case io:
+			ci.Close()
+		case g%3 == 0:
+			ci.Close()
+		case g%3 == 1:
+			co.Close()
+		default:
+			fmt.Fprintf(co, "0\r\n\r\n")
+		}
+		if _, ok := s.WaitLine(n0, 5*time.Second, func(cl opshell.CLine) bool { return strings.Contains(cl.Line, iobroker.ShellDisconnectedMessage) }); !ok {
+			r.Violation("http:shell-not-torn-down", what)
+			return
+		}
+		if ci != nil {
+			ci.Close()
+		}
+		if co != nil {
+			co.Close()
+		}
+		// the help is printed again, exactly once, and nothing is left attached
+		if _, ok := s.WaitLine(n0, 5*time.Second, func(cl opshell.CLine) bool { return strings.Contains(cl.Line, "/c | /bin/sh") }); !ok {
+			r.Violation("http:help-not-reprinted", what)
+			return
+		}
+		for k := 0; k < 3000; k++ {
+			st := s.B.VerifSnapshot()
+			if !st.In && !st.Out && st.Key == "" {
+				break
+			}
+			time.Sleep(time.Millisecond)
+		}
+		time.Sleep(300 * time.Microsecond)
+		ready, gone, help := 0, 0, 0
+		for _, l := range s.Lines()[n0:] {
+			switch {
+			case strings.Contains(l.CL.Line, iobroker.ShellReadyMessage):
+				ready++
+			case strings.Contains(l.CL.Line, iobroker.ShellDisconnectedMessage):
+				gone++
+			case strings.Contains(l.CL.Line, "/c | /bin/sh"):
+				help++
+			}
+		}
+		if ready != 1 || gone != 1 || help != 1 {
+			what["ready_notices"], what["gone_notices"], what["help_printed"] = ready, gone, help
+			r.Violation("http:announcements-per-shell", what)
+			return
+		}
+		r.Add("http_generations", 1)
+	}
+}
